@@ -36,7 +36,29 @@ var pool = func() []Key {
 	return out
 }()
 
-func K(i int) Key { return pool[i] }
+// Twin+i refers to pool key i in its other parity encoding (02||X <-> 03||X): a different 33-byte string, the same
+// BIP-340 signing key.
+const Twin = 100
+
+func K(i int) Key {
+	if i >= Twin {
+		k := pool[i-Twin]
+		if k.Hex[1] == '2' {
+			k.Hex = "03" + k.Hex[2:]
+		} else {
+			k.Hex = "02" + k.Hex[2:]
+		}
+		return k
+	}
+	return pool[i]
+}
+
+func base(i int) int {
+	if i >= Twin {
+		return i - Twin
+	}
+	return i
+}
 
 // roles: 0 = lock key, 1..3 co-signers, 4..5 refund keys, 6..7 foreign keys
 const (
@@ -51,6 +73,7 @@ type Config struct {
 	NSigs     int    // -1 absent
 	NCosign   int
 	DupLockInPubkeys bool
+	LockIdx          int // pool index of the P2PK lock key (default LockKey)
 	// PubkeyOrder, when set, is the pubkeys tag as pool indexes in order (a permutation of the co-signers and, with
 	// DupLockInPubkeys, the lock key; possibly with one entry repeated anywhere in the list)
 	PubkeyOrder []int
@@ -78,10 +101,16 @@ func GenConfig(t *rapid.T, kind string) Config {
 		}
 		if c.DupLockInPubkeys {
 			base = append(base, LockKey)
+			if rapid.IntRange(0, 3).Draw(t, "lock_key_as_parity_twin") == 0 {
+				base[len(base)-1] = Twin + LockKey
+			}
 		}
 		order := rapid.Permutation(base).Draw(t, "pubkey_order")
 		if rapid.Bool().Draw(t, "repeat_pubkey") {
 			rep := order[rapid.IntRange(0, len(order)-1).Draw(t, "repeat_which")]
+			if rapid.IntRange(0, 2).Draw(t, "repeat_as_parity_twin") == 0 {
+				rep += Twin
+			}
 			at := rapid.IntRange(0, len(order)).Draw(t, "repeat_at")
 			order = append(order[:at:at], append([]int{rep}, order[at:]...)...)
 		}
@@ -111,14 +140,14 @@ func (c Config) orderConsistent() bool {
 	}
 	seen := map[int]bool{}
 	for _, k := range c.PubkeyOrder {
-		seen[k] = true
+		seen[base(k)] = true
 	}
 	for i := 0; i < c.NCosign; i++ {
 		if !seen[Cosign0+i] {
 			return false
 		}
 	}
-	return len(seen) == c.NCosign+b2i(c.DupLockInPubkeys) && seen[LockKey] == c.DupLockInPubkeys
+	return len(seen) == c.NCosign+b2i(c.DupLockInPubkeys) && seen[c.LockIdx] == c.DupLockInPubkeys
 }
 
 func b2i(b bool) int {
@@ -132,7 +161,7 @@ func (c Config) Now() int64 { return time.Now().Unix() }
 
 // Secret renders the NUT-10 secret string exactly as a wallet would serialise it.
 func (c Config) Secret() string {
-	data := K(LockKey).Hex
+	data := K(c.LockIdx).Hex
 	if c.Kind == "HTLC" {
 		pre, _ := hex.DecodeString(c.Preimage)
 		h := sha256.Sum256(pre)
@@ -173,7 +202,7 @@ func (c Config) Secret() string {
 			pk = append(pk, K(Cosign0+i).Hex)
 		}
 		if c.DupLockInPubkeys {
-			pk = append(pk, K(LockKey).Hex)
+			pk = append(pk, K(c.LockIdx).Hex)
 		}
 		tags = append(tags, pk)
 	}
@@ -231,7 +260,7 @@ func Sign(i int, msg []byte, variant int) string {
 		aux[0] = byte(variant)
 		opts = append(opts, schnorr.CustomNonce(aux))
 	}
-	s, err := schnorr.Sign(K(i).Priv, h[:], opts...)
+	s, err := schnorr.Sign(K(base(i)).Priv, h[:], opts...)
 	if err != nil {
 		panic(err)
 	}
@@ -347,7 +376,7 @@ func (c Config) AuthKeys() (keys []int, need int) {
 		need = c.NSigs
 	}
 	if c.Kind == "P2PK" {
-		keys = append(keys, LockKey)
+		keys = append(keys, c.LockIdx)
 	}
 	for i := 0; i < c.NCosign; i++ {
 		keys = append(keys, Cosign0+i)
@@ -423,7 +452,7 @@ func GenWitnessElems(t *rapid.T, c Config, candidates []int, label string) ([]Si
 func (c Config) RepeatedKeys() []int {
 	var list []int
 	if c.Kind == "P2PK" {
-		list = append(list, LockKey)
+		list = append(list, c.LockIdx)
 	}
 	if c.orderConsistent() {
 		list = append(list, c.PubkeyOrder...)
@@ -432,15 +461,15 @@ func (c Config) RepeatedKeys() []int {
 			list = append(list, Cosign0+i)
 		}
 		if c.DupLockInPubkeys {
-			list = append(list, LockKey)
+			list = append(list, c.LockIdx)
 		}
 	}
 	n := map[int]int{}
 	var out []int
 	for _, k := range list {
-		n[k]++
-		if n[k] == 2 {
-			out = append(out, k)
+		n[base(k)]++
+		if n[base(k)] == 2 {
+			out = append(out, base(k))
 		}
 	}
 	return out
@@ -459,11 +488,16 @@ func PubkeysClass(c Config) string {
 	}
 	list := c.PubkeyOrder
 	if c.Kind == "P2PK" {
-		list = append([]int{LockKey}, list...)
+		list = append([]int{c.LockIdx}, list...)
 	}
 	last := map[int]int{}
 	out := "permuted"
+	twin := false
 	for i, k := range list {
+		if k >= Twin {
+			twin = true
+		}
+		k = base(k)
 		if j, ok := last[k]; ok {
 			if i-j == 1 && out != "repeat_nonadjacent" {
 				out = "repeat_adjacent"
@@ -472,6 +506,9 @@ func PubkeysClass(c Config) string {
 			}
 		}
 		last[k] = i
+	}
+	if twin && strings.HasPrefix(out, "repeat") {
+		out += "_as_parity_twin"
 	}
 	return out
 }
